@@ -20,6 +20,7 @@ macro_rules! props {
 }
 
 pub mod common;
+pub mod c15_scale;
 
 props! {
     "C01" => c01,
@@ -49,6 +50,8 @@ pub fn iso_space(prop: &str, mode: &str, tier: Tier) -> Option<Box<dyn IsoSpace>
             Some(i) => Some(Box::new(c18::OneOf { inner: c18::space(tier), idx: i.parse().ok()? })),
             None => Some(Box::new(c18::space(tier))),
         },
+        "C15" if mode == "scale" => Some(Box::new(c15_scale::ScaleSpace::new(tier))),
+        "C15" if mode.starts_with("scale-one:") => Some(Box::new(c15_scale::OneScale { inner: c15_scale::ScaleSpace::new(tier), idx: mode.strip_prefix("scale-one:")?.parse().ok()? })),
         "C15" => match mode.strip_prefix("one:") {
             Some(i) => Some(Box::new(c15::OneOf { inner: c15::Space::new(tier), idx: i.parse().ok()? })),
             None => Some(Box::new(c15::Space::new(tier))),
